@@ -146,7 +146,7 @@ theorem identify_reissue (env : Env) (cfg : Cfg) (req : Req) (st : St) (c : Text
     (hd : decodeLoop env.U (splitAll '|' p.userData) (.str p.userid) = .ok u)
     (hr : reissueDue cfg st req.now p.ts = true)
     (headers : List SetCookie) (st' : St)
-    (hrem : remember env cfg req st u cfg.maxAge (((splitAll ',' p.tokens).filter (!·.isEmpty)).map .str) = (.ok headers, st')) :
+    (hrem : remember env cfg req st true u cfg.maxAge (((splitAll ',' p.tokens).filter (!·.isEmpty)).map .str) = (.ok headers, st')) :
     identify env cfg req st =
       (.ok (some ⟨p.ts, u, (splitAll ',' p.tokens).filter (!·.isEmpty), p.userData⟩),
        { st' with reissued := true, callbacks := st'.callbacks ++ [headers] }) := by
